@@ -248,7 +248,7 @@ theorem checker_sound (g : Graph) (t : Table) (c : Cert) (h : checkTable g t c =
     MinCostNextHop g (lookup t) :=
   Lemmas.checker_sound g t c h
 
-/-! Non-vacuity: a 4-node graph with a lost link, two equal-cost routes and an unreachable node. -/
+/-! Non-vacuity: a 5-node graph with lost links, two equal-cost routes and an unreachable node. -/
 def exGraph : Graph := ⟨5, [(0, 1, 0), (0, 2, 1000), (1, 3, 2000), (2, 3, 1000), (3, 0, 0)]⟩
 def exCert : Cert :=
   ⟨[some 0, some 0, some 1000, some 2000, none], [[], [0, 1], [0, 2], [0, 2, 3], []]⟩
@@ -257,5 +257,212 @@ example : checkTable exGraph [(1, 1), (2, 2), (3, 1)] ⟨exCert.pot, [[], [0, 1]
   decide
 example : checkTable exGraph [(1, 1), (2, 2), (3, 3)] exCert = false := by decide
 example : checkTable exGraph [(1, 1), (2, 2)] exCert = false := by decide
+
+/-! ### Routing table: the algorithms -/
+
+/-- **Bellman–Ford is exact**: `n` rounds of relaxation over a graph with weights ≥ 0 whose arcs
+stay inside the `n` vertices label exactly the reachable vertices, each with its least walk cost.
+(Simple-path argument: every walk can be replaced by one without repeated vertices that costs no
+more, and such a walk has fewer than `n` arcs — pigeonhole.) -/
+theorem bellman_ford_exact (g : Graph) (hw : ∀ e ∈ g.arcs, 0 ≤ e.2.2)
+    (hwf : ∀ e ∈ g.arcs, e.2.1 < g.n) (s : Nat) (hs : s < g.n) (v : Nat) :
+    ((bf g s).get v = none ↔ ¬ Reachable g s v) ∧
+    (∀ d, (bf g s).get v = some d → IsDist g s v d) :=
+  ⟨Lemmas.bf_none_iff hw hwf hs v, fun _ h => Lemmas.bf_isDist hw hwf hs h⟩
+
+/-- The reference algorithm (`refTable`: distances by Bellman–Ford, first admissible next hop)
+produces a table with the property — all graphs with weights ≥ 0. -/
+theorem lib_correct_partial (g : Graph) (hw : ∀ e ∈ g.arcs, 0 ≤ e.2.2)
+    (hwf : ∀ e ∈ g.arcs, e.1 < g.n ∧ e.2.1 < g.n) (hn : 0 < g.n) :
+    MinCostNextHop g (lookup (refTable g)) :=
+  Lemmas.refTable_correct g hw hwf hn
+
+/-- **The ported `dijkstra.Graph.Shortest` is partially correct** for weights ≥ 0, for every
+iteration order of the arc maps: an answer `ok d p` is a least-cost walk starting with an arc of
+`src`; `ErrNoPath` means no walk cheaper than the library's infinity exists; the "loop detected"
+error never occurs. Only termination within the fuel is not covered (`outOfFuel`; `badPred` is
+`bestPath` not reaching `src` within `n + 1` steps). -/
+theorem lib_shortest_correct (g : Graph) (hw : ∀ e ∈ g.arcs, 0 ≤ e.2.2) (src dest : Nat)
+    (hsd : src ≠ dest) (fuel : Nat) :
+    match libShortest fuel g.n (adjOf g.arcs) src dest with
+    | .ok d p => IsDist g src dest d ∧
+        ∃ h rest w c, p = src :: h :: rest ∧ (src, h, w) ∈ g.arcs ∧ Walk g h dest c ∧ w + c = d
+    | .noPath => ∀ c, Walk g src dest c → infDist ≤ c
+    | .loopErr => False
+    | .outOfFuel => True
+    | .badPred => True :=
+  Lemmas.libShortest_spec g hw hsd fuel
+
+/-- **`computeRoutingTable` with the ported library loop** (`Shortest(0, i)`, `Path[1]`) yields a
+table with the property, for every graph with weights ≥ 0 — provided the loop terminates within
+the port's fuel (observed on every explored instance, not proved) and costs stay below the
+library's infinity `MaxInt64 - 2`. -/
+theorem lib_correct (g : Graph) (hw : ∀ e ∈ g.arcs, 0 ≤ e.2.2) (hwf : ∀ e ∈ g.arcs, e.2.1 < g.n)
+    (hcost : ∀ d c, Walk g 0 d c → ∃ c', Walk g 0 d c' ∧ c' < infDist)
+    (hterm : ∀ d, d < g.n → d ≠ 0 →
+      libShortest (libFuel g) g.n (adjOf g.arcs) 0 d ≠ .outOfFuel ∧
+      libShortest (libFuel g) g.n (adjOf g.arcs) 0 d ≠ .badPred) :
+    MinCostNextHop g (lookup (libTable g)) :=
+  Lemmas.libTable_correct g hw hwf hcost hterm
+
+example : refTable exGraph = [(1, 1), (2, 2), (3, 1)] := by decide
+example : libTable exGraph = [(1, 1), (2, 2), (3, 1)] := by decide
+example : libShortest (libFuel exGraph) 5 (adjOf exGraph.arcs) 0 3 = .ok 2000 [0, 1, 3] := by decide
+example : libShortest (libFuel exGraph) 5 (adjOf exGraph.arcs) 0 4 = .noPath := by decide
+/-- The choice among equally good next hops depends on the iteration order of the arc map: -/
+example : libTable ⟨4, [(0, 1, 0), (0, 2, 0), (1, 3, 5), (2, 3, 5)]⟩ = [(1, 1), (2, 2), (3, 2)] := by decide
+example : libTable ⟨4, [(0, 2, 0), (0, 1, 0), (1, 3, 5), (2, 3, 5)]⟩ = [(1, 1), (2, 2), (3, 1)] := by decide
+
+/-! ### The graph the node builds -/
+
+/-- Cost of a link: live ⇒ 0; lost in the past ⇒ the elapsed milliseconds (`int64` conversion is
+the identity below 2^63). -/
+theorem edge_cost (now ts : Nat) (hle : ts ≤ now) (hnow : now < two64 / 2) :
+    edgeCost now 0 = 0 ∧ (0 < ts → edgeCost now ts = ((now - ts : Nat) : Int)) ∧ 0 ≤ edgeCost now ts :=
+  ⟨rfl, fun h => Lemmas.edgeCost_past h hle hnow, Lemmas.edgeCost_nonneg hle hnow⟩
+
+/-- Outside the property's quantifier: a loss time in the future (clock skew) wraps around and
+becomes a negative cost. -/
+theorem edge_cost_future_negative_witness : edgeCost 1000 3000 = -2000 := by decide
+
+/-- **After each recomputation** (all loss times in the past): the graph built from `peers` and
+`receivedData` has costs ≥ 0 and stays inside the node index, hence the reference table on it has
+the property, and so has the table of the ported library loop whenever that loop terminates. -/
+theorem routing_table_min_cost (s : State) (now : Nat) (hp : Lemmas.PastLosses now s)
+    (hnow : now < two64 / 2) (hix : s.indexNode ≠ []) :
+    MinCostNextHop (buildGraph now s) (lookup (refTable (buildGraph now s))) ∧
+    ((∀ d c, Walk (buildGraph now s) 0 d c → ∃ c', Walk (buildGraph now s) 0 d c' ∧ c' < infDist) →
+     (∀ d, d < (buildGraph now s).n → d ≠ 0 →
+        libShortest (libFuel (buildGraph now s)) (buildGraph now s).n
+          (adjOf (buildGraph now s).arcs) 0 d ≠ .outOfFuel ∧
+        libShortest (libFuel (buildGraph now s)) (buildGraph now s).n
+          (adjOf (buildGraph now s).arcs) 0 d ≠ .badPred) →
+     MinCostNextHop (buildGraph now s) (lookup (libTable (buildGraph now s)))) := by
+  have hw := Lemmas.buildGraph_nonneg hp hnow
+  have hwf := Lemmas.buildGraph_wf (now := now) hix
+  refine ⟨Lemmas.refTable_correct _ hw hwf ?_, fun hcost hterm =>
+    Lemmas.libTable_correct _ hw (fun e he => (hwf e he).2) hcost hterm⟩
+  exact List.length_pos_iff.mpr hix
+
+/-- The table is rebuilt from scratch: the old table has no influence. -/
+theorem recompute_ignores_old_table (s : State) (t : Table) (now : Nat) :
+    ({ s with table := t }.computeLib now).table = (s.computeLib now).table := rfl
+
+/-- A node that lost peer 1 two seconds ago, has peer 2 live, and heard from 2 that 2–1 is live. -/
+def exState : State :=
+  ((((State.init 0).peerAppeared 1).peerAppeared 2).peerDisappeared 8000 1).notify ⟨2, 7, [(1, 0), (0, 0)]⟩
+example : (buildGraph 10000 exState).arcs = [(0, 1, 2000), (0, 2, 0), (2, 1, 0), (2, 0, 0)] := by decide
+example : (exState.computeLib 10000).table = [(1, 2), (2, 2)] := by decide
+example : (exState.computeRef 10000).table = [(1, 2), (2, 2)] := by decide
+example : Lemmas.PastLosses 10000 exState := by
+  refine ⟨by decide, ?_⟩
+  intro id d h e he
+  have hr : exState.received id = if id = 2 then some ⟨2, 7, [(1, 0), (0, 0)]⟩ else none := by
+    simp [exState, State.notify, State.peerDisappeared, State.peerAppeared, State.init,
+      notifyAccepts, notifyData, upd]
+  rw [hr] at h
+  split at h
+  · cases h
+    simp at he
+    rcases he with rfl | rfl <;> decide
+  · cases h
+
+/-! ### Link-state reception -/
+
+/-- **Order freedom**: for every arrival order (permutation) of a set of link-state updates in
+which two different updates of one node never carry the same timestamp, the stored link state
+`receivedData` ends up the same. -/
+theorem linkstate_order_free (s : State) (l₁ l₂ : List PeerData) (hp : l₁.Perm l₂)
+    (hd : ∀ a ∈ l₁, ∀ b ∈ l₁, a.id = b.id → a.timestamp = b.timestamp → a = b) :
+    (l₁.foldl State.notify s).received = (l₂.foldl State.notify s).received := by
+  rw [Lemmas.received_foldl_notify, Lemmas.received_foldl_notify]
+  exact Lemmas.foldl_notifyData_perm hp hd s.received
+
+/-- **Only newer data replaces**: an update whose timestamp is equal to (or older than) the
+stored one changes nothing — in particular equal timestamps never replace. -/
+theorem linkstate_equal_or_older_never_replaces (s : State) (d stored : PeerData)
+    (hs : s.received d.id = some stored) (ht : d.timestamp ≤ stored.timestamp) :
+    s.notify d = s := by
+  have : notifyAccepts s.received d = false := by
+    simp only [notifyAccepts, hs, shouldReplace, decide_eq_false_iff_not]
+    omega
+  simp [State.notify, this]
+
+/-- … and a strictly newer one, or the first one of a node, is stored. -/
+theorem linkstate_newer_replaces (s : State) (d : PeerData)
+    (h : s.received d.id = none ∨ ∃ st, s.received d.id = some st ∧ st.timestamp < d.timestamp) :
+    (s.notify d).received d.id = some d := by
+  rcases h with h | ⟨st, h, hlt⟩
+  · have hacc : notifyAccepts s.received d = true := by simp [notifyAccepts, h]
+    simp [State.notify, hacc, Lemmas.notifyData_apply, h, Lemmas.newer]
+  · have hacc : notifyAccepts s.received d = true := by simp [notifyAccepts, h, shouldReplace, hlt]
+    simp [State.notify, hacc, Lemmas.notifyData_apply, h, Lemmas.newer, hlt]
+
+/-- The model meets the link-state Spec the driver evaluates on the implementation: starting
+empty, what is stored for a node is the earliest arrived update among those with the maximal
+timestamp. -/
+theorem linkstate_stores_newest (l : List PeerData) (id : Nat) :
+    (l.foldl State.notify (State.init 0)).received id = expectedStored l id := by
+  rw [Lemmas.received_foldl_notify]
+  exact Lemmas.foldl_notifyData_expected l id
+
+example : ([⟨1, 20, [(2, 0)]⟩, ⟨1, 10, []⟩, ⟨1, 20, [(3, 0)]⟩].foldl State.notify (State.init 0)).received 1
+    = some ⟨1, 20, [(2, 0)]⟩ := by decide
+/-- Equal timestamps, different contents: the order matters (first wins) — why the hypothesis of
+`linkstate_order_free` is needed. -/
+example : ([⟨1, 20, [(3, 0)]⟩, ⟨1, 10, []⟩, ⟨1, 20, [(2, 0)]⟩].foldl State.notify (State.init 0)).received 1
+    = some ⟨1, 20, [(3, 0)]⟩ := by decide
+
+/-! ### Forwarding -/
+
+/-- **Unicast**: `SenderForBundle` returns nothing, or exactly the one connected sender whose peer
+is the table's next hop for the destination, and then asks for the bundle to be released; the
+bundle's sent list is left alone. -/
+theorem unicast_single_next_hop_then_released (table : Table) (clas sent : List Nat) (d : Nat) :
+    (senderForBundle table clas sent (.node d)).sent = sent ∧
+    ((senderForBundle table clas sent (.node d)).senders = [] ∧
+        (senderForBundle table clas sent (.node d)).delete = false ∨
+      ∃ h, lookup table d = some h ∧ h ∈ clas ∧
+        (senderForBundle table clas sent (.node d)).senders = [h] ∧
+        (senderForBundle table clas sent (.node d)).delete = true) :=
+  Lemmas.senderForBundle_unicast table clas sent d
+
+/-- **`Core.forward` for a unicast bundle**: every convergence sender it is handed to is the
+destination itself (direct delivery) or the table's next hop; whenever it is handed to anybody it
+is released after a successful transmission; without direct delivery at most one peer gets it. -/
+theorem unicast_forward_only_direct_or_next_hop (table : Table) (clas sent : List Nat) (d : Nat) :
+    (∀ p ∈ (forwardTargets table clas sent (.node d)).senders, p = d ∨ lookup table d = some p) ∧
+    ((forwardTargets table clas sent (.node d)).senders ≠ [] →
+      released (forwardTargets table clas sent (.node d)) true = true) ∧
+    (d ∉ clas → (forwardTargets table clas sent (.node d)).senders.length ≤ 1) := by
+  obtain ⟨h1, h2, h3⟩ := Lemmas.forwardTargets_unicast table clas sent d
+  exact ⟨h1, fun hne => by simp [released, h2 hne], h3⟩
+
+/-- **Broadcast, one attempt**: the chosen senders are pairwise different connected peers that are
+not yet in the sent list; every connected peer is in the sent list or chosen; the new sent list is
+the old one plus the chosen peers; the bundle is kept (`delete = false`); an immediate second
+attempt chooses nobody. -/
+theorem broadcast_once_per_peer (table : Table) (clas sent : List Nat) :
+    let r := senderForBundle table clas sent .broadcast
+    r.senders.Nodup ∧ (∀ c ∈ r.senders, c ∈ clas ∧ c ∉ sent) ∧
+    (∀ c ∈ clas, c ∈ sent ∨ c ∈ r.senders) ∧ r.sent = sent ++ r.senders ∧ r.delete = false ∧
+    (senderForBundle table clas r.sent .broadcast).senders = [] := by
+  obtain ⟨h1, h2, h3, h4⟩ := Lemmas.filterCLAs_spec clas sent
+  exact ⟨h2, h3, h4, h1, rfl, Lemmas.filterCLAs_again sent clas⟩
+
+/-- **Broadcast, whole history**: over any sequence of forwarding attempts (each seeing the then
+connected peers, the sent list persisted in between) no peer is served twice, nobody already in
+the sent list is served, and every peer connected at some attempt has been served. -/
+theorem broadcast_history_once (sent : List Nat) (hist : List (List Nat)) :
+    (broadcastHistory sent hist).Nodup ∧
+    (∀ c ∈ broadcastHistory sent hist, c ∉ sent ∧ ∃ clas ∈ hist, c ∈ clas) ∧
+    (∀ clas ∈ hist, ∀ c ∈ clas, c ∈ sent ∨ c ∈ broadcastHistory sent hist) :=
+  Lemmas.broadcastHistory_spec hist sent
+
+example : senderForBundle [(3, 2)] [1, 2] [] (.node 3) = ⟨[2], true, []⟩ := by decide
+example : senderForBundle [(3, 4)] [1, 2] [] (.node 3) = ⟨[], false, []⟩ := by decide
+example : forwardTargets [(3, 2)] [1, 2, 3] [] (.node 3) = ⟨[3], true, []⟩ := by decide
+example : senderForBundle [(3, 2)] [1, 2, 4] [4] .broadcast = ⟨[1, 2], false, [4, 1, 2]⟩ := by decide
+example : broadcastHistory [4] [[1, 2, 4], [1, 2, 4], [1, 2, 4, 5]] = [1, 2, 5] := by decide
 
 end Dtn7.Props.C20
